@@ -84,7 +84,7 @@ func genOverlap(g *xast.G, abs bool) *xast.Expr {
 
 func TestC03(t *testing.T) {
 	runWitnesses(t, "C03")
-	runProp(t, "union", 4000, 300000, func(t *rapid.T) {
+	runProp(t, "union", 8000, 300000, func(t *rapid.T) {
 		ev := xmodel.Gen(t, c02DocCfg())
 		p, err := prepareDoc(ev)
 		if err != nil {
